@@ -87,6 +87,54 @@ class SpecCrystal:
         return np.zeros((n, n, 3, 3))
 
 
+class ShearedOracle:
+    """The crystal of an Oracle handed to phonopy in another basis of the same lattice: rows L' = U L (U integer,
+    unimodular), scaled positions x' = x U^-1.  Force constants are those of the same physical supercell: the
+    supercell matrix S' of the sheared cell is S = U^T S' of the catalogue setting."""
+
+    def __init__(self, orc, U):
+        self.orc = orc
+        self.U = np.array(U, dtype=int)
+        self.D = orc.D
+        self.a = orc.a
+        self.L = self.U @ orc.L
+        self.Linv = np.linalg.inv(self.L)
+        self.species, self.masses = orc.species, orc.masses
+        Uit = np.rint(np.linalg.inv(self.U)).astype(int).T
+        self.num = [[int(v) for v in Uit @ np.array(nn)] for nn in orc.num]
+
+    @staticmethod
+    def original_supercell(U, S):
+        return (np.array(U, dtype=int).T @ np.array(S, dtype=int)).tolist()
+
+    def unitcell(self):
+        from phonopy.structure.atoms import PhonopyAtoms
+        from .oracle import SYMBOL_OF
+        return PhonopyAtoms(symbols=[SYMBOL_OF[s_] for s_ in self.species],
+                            scaled_positions=np.array(self.num, dtype=float) / self.D, cell=self.L, masses=self.masses)
+
+    def supercell_fc(self, S, supercell):
+        return self.orc.supercell_fc(self.original_supercell(self.U, S), supercell)
+
+
+def reciprocal_basis_not_reduced(lattice):
+    """True iff the reciprocal basis vectors (columns of inv(lattice)) are not the successive minima of the reciprocal
+    lattice: then no signed permutation relates the basis to a reduced one (own brute-force search, no phonopy)."""
+    import itertools
+    rec = np.linalg.inv(np.array(lattice, float)).T            # rows = reciprocal basis vectors
+    vecs = sorted((np.array(c) @ rec for c in itertools.product(range(-4, 5), repeat=3) if any(c)),
+                  key=lambda v: v @ v)
+    chosen = []
+    for v in vecs:
+        if np.linalg.matrix_rank(np.array(chosen + [v]), tol=1e-9) > len(chosen):
+            chosen.append(v)
+        if len(chosen) == 3:
+            break
+    minima = sorted(float(v @ v) for v in chosen)
+    mine = sorted(float(v @ v) for v in rec)
+    return bool(max(abs(a_ - b_) for a_, b_ in zip(minima, mine)) > 1e-9 * max(mine))
+
+
 class NacCase:
     """One configuration on the real code."""
 
